@@ -9,11 +9,12 @@ from vlib import gcrun as G
 PLANS = list(G.PLANS)
 THEOREMS = ["Mmtk.VO.vo_exact_after_full_gc", "Mmtk.VO.enumerate_exact_once", "Mmtk.VO.dead_not_reported", "Mmtk.VO.postAlloc_exact",
             "Mmtk.VO.copy_exact", "Mmtk.VO.sweep_exact", "Mmtk.VO.immix_exact", "Mmtk.VO.compact_exact", "Mmtk.VO.compressor_exact",
-            "Mmtk.VO.mem_scanRange", "Mmtk.VO.scanRange_nodup"]
+            "Mmtk.VO.mem_scanRange", "Mmtk.VO.scanRange_nodup",
+            "Mmtk.VO.sweepBlockLines_vo", "Mmtk.VO.gcImmixLines_eq", "Mmtk.VO.immix_lines_exact", "Mmtk.VO.immix_exact_full_block"]
 KEYS = ("gc:enum-dup", "gc:enum-missing", "gc:enum-extra", "gc:ismo-missing", "gc:ismo-stale")
 NEVER = ("immortal", "code_space", "large_code_space", "ro_space", "vm_space")
 META = {
-    "text": "VO-bit model (Model/VO.lean): the bit set as a function on word addresses with the primitive operations of vo_bit/mod.rs (set, unset, bzero, bcopy-from-mark-bits) and each policy's collection-time update transcribed as a fold over them — CopySpace (set on copy, bzero of the from-space regions), ImmixSpace (set on forward, per-block copy of the side mark bits / bzero at sweep), native MarkSweepSpace and LargeObjectSpace (unset per dead cell / object), MarkCompactSpace (linear scan in address order: unset old, set new), CompressorSpace (bzero region, set new), immortal spaces (never cleared). Theorem `vo_exact_after_full_gc`: if the bits were exactly the objects of the space before a full-heap collection, afterwards they are exactly the new references of the traced objects (reachable, soft-retained or finalizer-resurrected), for every object list, liveness and forwarding map satisfying the policy's layout conditions; a never-collected space keeps all; `dead_not_reported`. `enumerate_exact_once`: scanning pairwise disjoint regions plus a duplicate-free treadmill visits every set bit exactly once and nothing else. Real collections: generated programs (all semantics, sharing, cycles, root churn, reference objects and finalizers that resurrect subgraphs, soft-retained referents) on all 11 plans x {1,4} workers; after every forced exhaustive GC hx_gc's `enum` (MMTK::enumerate_objects) and `ismo` (memory_manager::is_mmtk_object) on every enumerated and every previously known address are compared with the survivor set computed by the Lean monitor (reach of the shadow heap + the reference / finalizer pipeline + never-collected spaces + allocations since the pause), each object once.",
+    "text": "VO-bit model (Model/VO.lean): the bit set as a function on word addresses with the primitive operations of vo_bit/mod.rs (set, unset, bzero, bcopy-from-mark-bits) and each policy's collection-time update transcribed as a fold over them — CopySpace (set on copy, bzero of the from-space regions), ImmixSpace (set on forward, per-block copy of the side mark bits / bzero at sweep), native MarkSweepSpace and LargeObjectSpace (unset per dead cell / object), MarkCompactSpace (linear scan in address order: unset old, set new), CompressorSpace (bzero region, set new), immortal spaces (never cleared). Theorem `vo_exact_after_full_gc`: if the bits were exactly the objects of the space before a full-heap collection, afterwards they are exactly the new references of the traced objects (reachable, soft-retained or finalizer-resurrected), for every object list, liveness and forwarding map satisfying the policy's layout conditions; a never-collected space keeps all; `dead_not_reported`. Immix at line level: `sweepBlockLines` transcribes `Block::sweep` with line marks branch for branch (no marked line: zero + release; otherwise the VO bits are copied from the mark bits AFTER the `if is_reusable` that only picks the block state); `sweepBlockLines_vo` / `gcImmixLines_eq`: its VO effect does not depend on reusability, `immix_exact_full_block`: a block that ends the collection with all of its lines marked (`NoReuse`) has exactly the survivors' bits, a dead object sharing its lines with survivors is not reported. `enumerate_exact_once`: scanning pairwise disjoint regions plus a duplicate-free treadmill visits every set bit exactly once and nothing else. Real collections: generated programs (all semantics, sharing, cycles, root churn, reference objects and finalizers that resurrect subgraphs, soft-retained referents) on all 11 plans x {1,4} workers, plus the dense-lines class (whole 32 KB Immix blocks filled with 128 / 64-byte objects, survivors chosen per 256-byte line: every 2nd, first / last of the line only, random, one line dead as control; dying young or after being matured; repeated exhaustive GCs, more deaths, new objects in the holes) on Immix, GenImmix, StickyImmix, ConcurrentImmix and on the non-moving ImmixSpace of Immix / SemiSpace / MarkSweep — there EVERY former object address is probed and the `immix` dump must show a block with all 128 lines marked that holds dead objects; after every forced exhaustive GC hx_gc's `enum` (MMTK::enumerate_objects) and `ismo` (memory_manager::is_mmtk_object) on every enumerated and every previously known address are compared with the survivor set computed by the Lean monitor (reach of the shadow heap + the reference / finalizer pipeline + never-collected spaces + allocations since the pause), each object once.",
     "note": "Level: proof of the model, partial w.r.t. the code. After a nursery collection only soundness (no valid object missing) is checked: dead mature objects legitimately keep their bit until the next full-heap collection. Known defects that fall under the generators' avoidance rules are inherited from C01/C06 (NonMoving on most plans, gc:los-nursery-weak-dangling, gc:markcompact-immortal-referent).",
     "technique": "Lean 4 proof (per-policy bit-set invariants, exactly-once enumeration) + run-time verification of real collections by the survivor-set monitor + independent oracle",
     "category": "proof",
@@ -22,7 +23,7 @@ META = {
 
 def d_vo(ctx, args):
     """!vo <n>: `enum`, then `ismo` on every enumerated address and on up to n previously known addresses"""
-    n = int(args[0]) if args else 300
+    n = (1 << 30 if args[0] == "all" else int(args[0])) if args else 300
     res = ctx.send("enum")
     if not res or not res.startswith("enum"):
         return
@@ -38,7 +39,8 @@ DIRECTIVES = {"vo": d_vo}
 
 
 def with_vo(ops, n=200):
-    """insert `!vo` after every forced exhaustive GC (the runner injects the snapshot itself)"""
+    """insert `!vo` after every forced exhaustive GC (the runner injects the snapshot itself); n = "all": every
+    enumerated and EVERY former object address is probed"""
     out, skip = [], False
     for i, op in enumerate(ops):
         out.append(op)
@@ -69,8 +71,100 @@ def gen_nursery_then_full(rnd, plan, info, heap, workers):
     return G.Program(plan, with_vo(G.normalize(g.ops)), heap=heap, workers=workers, tag="nursery-full")
 
 
-def make_suite(seed, tier):
+IMMIX_LINE_PLANS = ("Immix", "GenImmix", "StickyImmix", "ConcurrentImmix")
+NONMOVING_IMMIX_PLANS = ("Immix", "SemiSpace", "MarkSweep")      # NonMoving = the plan's default non-moving ImmixSpace
+
+
+def dense_suite(seed, tier):
+    """dense-lines (vlib/gcrun.gen_dense_lines): whole Immix blocks of 128 / 64-byte objects, survivors chosen per
+    line, on every plan whose default space is an ImmixSpace with lines + the non-moving ImmixSpace of other plans.
+    Quick: per plan, w=1 runs a pattern that leaves EVERY line marked (full block with garbage), w=4 any pattern
+    (controls included); thorough: every pattern x {die young, die old}."""
     progs = []
+    thorough = tier == "thorough"
+    for plan in IMMIX_LINE_PLANS + tuple(f"{p}/NonMoving" for p in NONMOVING_IMMIX_PLANS):
+        plan, _, sem = plan.partition("/")
+        sem = sem or "Default"
+        info = G.plan_info(plan, "fs_main")
+        if not info["vobit"] or not info["collects"]:
+            continue
+        if thorough:
+            combos = [(w, pat, old) for pat in G.DENSE_PATTERNS for old in (False, True) for w in ((1, 4) if sem == "Default" else (1,))]
+        else:
+            combos = [(1, None, None), (4, "any", None)] if sem == "Default" else [(1, None, None)]
+        for k, (w, pat, old) in enumerate(combos):
+            rnd = random.Random(f"{seed}/C07/dense/{plan}/{sem}/{w}/{k}")
+            if pat is None:
+                pat = rnd.choice(G.DENSE_FULL)
+            elif pat == "any":
+                pat = rnd.choice(G.DENSE_PATTERNS)
+            p = G.gen_dense_lines(rnd, plan, info, "fs_main", 64 * G.MB, w, blocks=rnd.choice([2, 3, 4]), sem=sem, pattern=pat,
+                                  old=old, probe="")
+            p.ops = with_vo(p.ops, "all")
+            p.yield_seed = rnd.randrange(1, 1 << 30) if thorough else 0
+            progs.append(p)
+    return progs
+
+
+def parse_immix(res):
+    """`immix` answer -> [(space, line mark state, [(block start, state byte, [line bytes])])]"""
+    out = []
+    for part in res.split(" space=")[1:]:
+        f = part.split()
+        kv = dict(x.split("=", 1) for x in f[1:] if "=" in x)
+        blocks = []
+        for b in kv.get("blocks", "").split(";"):
+            if b:
+                st, state, lines = b.split(":")
+                blocks.append((int(st, 16), int(state), [int(lines[i:i + 2], 16) for i in range(0, len(lines), 2)]))
+        out.append((f[0], int(kv.get("cur", "0")), blocks))
+    return out
+
+
+def dense_coverage(tr):
+    """per `immix` dump of a trace (taken right after a forced exhaustive GC + probes): (number of blocks whose 128
+    lines are ALL marked and that contain the former address of >= 1 dead object, number of reusable blocks with garbage)"""
+    refs, last, out = {}, set(), []
+    for op, res in tr.pairs:
+        t = op.split()
+        if t[0] == "alloc" and res.startswith("a="):
+            refs[int(t[2])] = int(re.search(r"\br=(0x[0-9a-f]+)", res).group(1), 16)
+        elif t[0] == "snap" and res.startswith("snap"):
+            cur = {}
+            G._note_refs(res, cur)
+            refs.update(cur)
+            last = set(cur)
+        elif t[0] == "immix" and res.startswith("immix"):
+            dead = sorted(a for i, a in refs.items() if i not in last)
+            full = reusable = 0
+            for name, cur, blocks in parse_immix(res):
+                for start, state, lines in blocks:
+                    if not any(start <= a < start + 32768 for a in dead):
+                        continue
+                    if state == 255 and all(x == cur for x in lines):
+                        full += 1
+                    elif state not in (0, 254, 255):
+                        reusable += 1
+            out.append((full, reusable))
+    return out
+
+
+def post(traces):
+    """the dense-lines programs must really produce what they are for: a block that ends an exhaustive GC with all of
+    its lines marked and dead objects inside (otherwise Block::sweep's not-reusable branch is not exercised)"""
+    miss = []
+    for plan in sorted({tr.program.plan for tr in traces if tr.program.tag.startswith("dense-lines")}):
+        trs = [tr for tr in traces if tr.program.plan == plan and tr.program.tag.startswith("dense-lines") and tr.rc == 0]
+        if trs and not any(f for tr in trs for f, _ in dense_coverage(tr)):
+            miss.append(plan)
+    if miss:
+        return [W.Violation("machinery:dense-lines-coverage", f"no dense-lines program produced a completely full Immix block with garbage on {miss}",
+                            None, None, None, False, broken="generator coverage (dense-lines)")]
+    return []
+
+
+def make_suite(seed, tier):
+    progs = dense_suite(seed, tier)
     thorough = tier == "thorough"
     for plan in PLANS:
         info = G.plan_info(plan, "fs_main")
@@ -224,6 +318,12 @@ def stats(traces):
             elif t[0] == "ismo":
                 ev += 1
                 bump("ismo:" + ("valid" if r[0] not in ("none", "unsupported") and not r[0].startswith("panic") else r[0]))
+        if p.tag.startswith("dense-lines"):
+            for k, (full, reusable) in enumerate(dense_coverage(tr)):
+                bump("dense:full-blocks-with-garbage", full)
+                bump("dense:reusable-blocks-with-garbage", reusable)
+                if full:
+                    nontriv.add((p.plan, p.workers, p.tag, "full-block", k, full))
     return ev, len(nontriv), dist
 
 
@@ -234,9 +334,9 @@ MALFORMED = ["gcw reset", "gcw res ok", "gcw op enum", "gcw res enum 1:zz", "gcw
 
 def main(argv=None):
     return W.run_check("C07", argv, ["MmtkModel.Props.C07"], THEOREMS, KEYS, make_suite, oracle, CORPUS, stats,
-                       rule="one evaluation = one `enum` (ids compared with the survivor set, each once) or one `ismo` probe on an enumerated / previously known address; non-trivial = an `enum` after >= 1 pause listing >= 2 objects while >= 1 allocated object had been reclaimed; distinct by (plan, workers, kind, pause, listed)",
+                       rule="one evaluation = one `enum` (ids compared with the survivor set, each once) or one `ismo` probe on an enumerated / previously known address (dense-lines programs: EVERY former object address); non-trivial = an `enum` after >= 1 pause listing >= 2 objects while >= 1 allocated object had been reclaimed, or an `immix` dump showing >= 1 block with all 128 lines marked that holds dead objects; distinct by (plan, workers, kind, pause, listed)",
                        assumptions=["`gc m 1` is a full-heap collection on every plan (ConcurrentImmix: Pause::Full); after a nursery collection only `no valid object is missing` is checked",
                                     "object ids are read from the object header by hx_gc (`enum` prints id:reference)",
                                     "addresses of unreachable-but-alive objects in moving spaces are unknown to the monitor: while such objects exist `none` answers are not asserted",
                                     "the VerifVM binding calls post_alloc for every allocation (VO bit set at birth)"],
-                       directives=DIRECTIVES, malformed=MALFORMED)
+                       directives=DIRECTIVES, malformed=MALFORMED, post=post)
